@@ -146,7 +146,7 @@ class Sh:
             funcs, prog = g.program()
             self.roundtrip(ml.render(funcs, prog, r), "generated", "|generated")
             if self.res["counters"].get("worker_crashes", 0) > CRASH_BUDGET: return
-        base = corpus.harvest()
+        base = corpus.harvest(deterministic=True)
         for j, t in enumerate(base):
             if re.search(r"\b(random|getsys|getenv)\b", t):
                 continue      # output not a function of the program text
